@@ -45,7 +45,7 @@ MUTANTS = {  # mutant -> a property that must be reported violated
     "remove_shrinks_bounds": {"BoundsMonotone"},
     "add_accepts_empty": {"NoZeroLength", "HeapWellFormed", "RejectedIsNoOp"},
 }
-ACTIONS = ["New", "Add", "AddAnnotator", "Remove", "Copy", "CopyFlush", "MergeInPlace", "MergeNew", "ResetBounds", "Drop"]
+ACTIONS = ["New", "Add", "AddMany", "AddAnnotator", "Remove", "Copy", "CopyFlush", "MergeInPlace", "MergeNew", "ResetBounds", "Drop"]
 
 # concretisations of the abstract universe (order-preserving)
 CONCRETE = [
@@ -137,7 +137,8 @@ def l2(rep, pa, depth, univ, maxunits=3, concretes=CONCRETE):
             continue
         src = _key([_canon(c) for c in e["src"]])
         dst = [_canon(c) for c in e["dst"]]
-        groups.setdefault(src, {}).setdefault((e["op"], tuple(e["args"])), set()).add((_key(dst), e["out"]))
+        args = tuple(tuple(sorted(map(tuple, a))) if isinstance(a, list) else a for a in e["args"])
+        groups.setdefault(src, {}).setdefault((e["op"], args), set()).add((_key(dst), e["out"]))
     if not groups:
         raise MachineryError("TLC emitted no edges")
     nobj = 2
@@ -155,6 +156,8 @@ def l2(rep, pa, depth, univ, maxunits=3, concretes=CONCRETE):
             for (op, args), outs in groups.get(skey, {}).items():
                 objs2 = copy.deepcopy(objs)     # one deepcopy of the whole heap keeps any aliasing inside it
                 ev = {"op": op, "args": _concrete_args(op, args, conc)}
+                if op in ("add_timeline", "add_annotation"):
+                    ev["items"] = [[conc["time"](i[0]), conc["time"](i[1]), conc["lab"].get(i[2])] for i in args[2]]
                 out = histories.apply_event(pa, objs2, ev)
                 heap, problems = abstract_heap(objs2, nobj, inv)
                 hk = _key(heap)
@@ -222,7 +225,7 @@ def run(tier, rep):
     if tier == "quick":
         l1(rep, 5, UNIV_A)
         l1(rep, 4, UNIV_B)
-        l2(rep, pa, 4, UNIV_A)
+        l2(rep, pa, 4, UNIV_A, concretes=CONCRETE[1:])
         l2(rep, pa, 4, UNIV_B, concretes=CONCRETE[:1])
         l3(rep, pa, n_traces=150, length=40)
     else:
